@@ -58,6 +58,7 @@ type params struct {
 	Predecl       bool // D2 pre-registered with WithDownstreamDataIDs
 	F             int  // link failures (C04 thorough)
 	P             int
+	DupFilter     bool // the downstream has two filters for source node 1
 	CloseInResume bool // the link is cut with an acknowledgement pending, the resume request is never answered, the application closes the stream
 	ReadInClose   bool // the broker takes 1 s to answer the close request; the application reads a queued chunk meanwhile
 	HoldAck       bool // the client's transport write stalls while an ack flush is under way, a second chunk is read meanwhile, then the link is cut
@@ -76,6 +77,9 @@ func (p params) name() string {
 	}
 	if p.CloseInResume {
 		return fmt.Sprintf("closeinresume-%s/P%d", strings.Join(p.Seq, ""), p.P)
+	}
+	if p.DupFilter {
+		return fmt.Sprintf("dupfilter-%s/P%d", strings.Join(p.Seq, ""), p.P)
 	}
 	return fmt.Sprintf("%s/q%d/u%v/pre%v/F%d/P%d", strings.Join(p.Seq, ""), p.QoS, p.Unrel, p.Predecl, p.F, p.P)
 }
@@ -130,6 +134,9 @@ func scenarios(tier string) []vlib.Scenario {
 	add(params{Seq: []string{"a", "c"}, QoS: message.QoSReliable, P: 1, Stream: true})
 	add(params{Seq: []string{"a", "a", "b"}, QoS: message.QoSReliable, P: 1})
 	add(params{Seq: []string{"a", "c", "f"}, QoS: message.QoSReliable, P: 1})
+	// two filters for one source node: its metadata still arrives once and in order
+	add(params{Seq: []string{"M1", "M1", "M2"}, QoS: message.QoSReliable, DupFilter: true})
+	add(params{Seq: []string{"M1", "M1"}, QoS: message.QoSReliable, DupFilter: true, P: 1})
 	// Close while the resume request is unanswered: nothing may follow the close request
 	add(params{Seq: []string{"a"}, QoS: message.QoSReliable, CloseInResume: true})
 	// a read that overlaps Close: what it returns is acknowledged, or it fails
@@ -367,6 +374,9 @@ func (w *world) main() {
 		opts = append(opts, iscp.WithDownstreamDataIDs([]*message.DataID{&d2}))
 	}
 	filters := []*message.DownstreamFilter{kit.Filter("src1")[0], kit.Filter("src2")[0]}
+	if w.p.DupFilter {
+		filters = []*message.DownstreamFilter{kit.Filter("src1")[0], {SourceNodeID: "src1", DataFilters: []*message.DataFilter{{Name: "other", Type: "#"}}}, kit.Filter("src2")[0]}
+	}
 	if _, err := w.OpenDown(sctx, "d0", filters, opts...); err != nil {
 		w.Phase = "setup-failed"
 		return
@@ -475,6 +485,29 @@ func (w *world) main() {
 		w.closeErr = w.Downs[0].D.Close(cctx)
 		ccancel()
 		vsched.Quiesce()
+		xctx, xcancel := kit.Ctx(5 * time.Second)
+		w.Conn.Close(xctx)
+		xcancel()
+		w.B.Stop()
+		w.Phase = "done"
+		return
+	}
+	if w.p.DupFilter {
+		// the items are sent back to back; the application reads afterwards
+		for i, name := range w.p.Seq {
+			w.sendItem(i, name)
+		}
+		vsched.Quiesce()
+		for range w.p.Seq {
+			w.readOne("meta")
+		}
+		w.Phase = "close"
+		w.resumedAtClose = w.Downs[0].Resumed
+		cctx, ccancel := kit.Ctx(10 * time.Second)
+		w.closeErr = w.Downs[0].D.Close(cctx)
+		ccancel()
+		vsched.Quiesce()
+		w.Phase = "connclose"
 		xctx, xcancel := kit.Ctx(5 * time.Second)
 		w.Conn.Close(xctx)
 		xcancel()
